@@ -40,6 +40,8 @@ type Case struct {
 	Limit    int     `json:"limit"`
 	ExpireMs int64   `json:"expire_ms"`
 	Ops      [][]any `json:"ops"`
+	// wheel: values whose execute callback blocks until ["release", value] (gated delivery)
+	Hold []int64 `json:"hold"`
 	// free: one script per goroutine (last element of an op = pause afterwards, in us), ticks
 	Threads     [][][]any `json:"threads"`
 	Ticks       int       `json:"ticks"`
@@ -81,6 +83,10 @@ const sentinel = int64(-424242)
 // so polling after an operation returned cannot miss work in progress.
 func busy(stack string) bool {
 	if strings.Contains(stack, "hx.Stacks(") {
+		return false
+	}
+	// a callback held open by the controller is at rest
+	if strings.Contains(stack, "c12x.(*gates).wait(") {
 		return false
 	}
 	if !strings.Contains(stack, "go-zero/core/collection") &&
@@ -149,12 +155,67 @@ func (f *fires) take() [][2]int64 {
 	return r
 }
 
+// ---- gates: execute callbacks the controller holds open across further operations -------
+
+type gates struct {
+	mu   sync.Mutex
+	hold map[int64]bool
+	ch   map[int64]chan struct{}
+}
+
+func newGates(hold []int64) *gates {
+	g := &gates{hold: map[int64]bool{}, ch: map[int64]chan struct{}{}}
+	for _, v := range hold {
+		g.hold[v] = true
+		g.ch[v] = make(chan struct{})
+	}
+	return g
+}
+
+// wait blocks the calling callback until the value is released (at once if it is not held)
+func (g *gates) wait(v int64) {
+	g.mu.Lock()
+	c := g.ch[v]
+	g.mu.Unlock()
+	if c != nil {
+		<-c
+	}
+}
+
+func (g *gates) release(v int64) {
+	g.mu.Lock()
+	if c := g.ch[v]; c != nil {
+		close(c)
+		delete(g.ch, v)
+	}
+	g.mu.Unlock()
+}
+
+func (g *gates) releaseAll() {
+	g.mu.Lock()
+	for v, c := range g.ch {
+		close(c)
+		delete(g.ch, v)
+	}
+	g.mu.Unlock()
+}
+
 // ---- the wheel through its public API ------------------------------------------------
 
 func runWheel(c Case) Out {
 	out := Out{ID: c.ID}
 	var fs fires
+	gt := newGates(c.Hold)
+	defer gt.releaseAll()
 	record := func(k, v any) {
+		fs.add(k.(int64), v.(int64))
+		gt.wait(v.(int64))
+		if v.(int64)%1000 == 999 {
+			panic("verif: callback panics")
+		}
+	}
+	// Drain hands its callbacks to a bounded runner from inside the run loop: never gated
+	drained := func(k, v any) {
 		fs.add(k.(int64), v.(int64))
 		if v.(int64)%1000 == 999 {
 			panic("verif: callback panics")
@@ -210,7 +271,9 @@ func runWheel(c Case) Out {
 				fk.Tick()
 			}
 		case "drain":
-			r = errClass(tw.Drain(record))
+			r = errClass(tw.Drain(drained))
+		case "release":
+			gt.release(num(op[1]))
 		case "stop":
 			func() {
 				defer func() {
